@@ -848,6 +848,14 @@ fn mode_layouts(r: &mut StdRng, scn: usize, n_req: usize, out: &mut Vec<Value>) 
       Req { q, filt, aggs: gen_aggs(r, &cfg), exec: *pick(r, &["bm25", "bm25", "wand", "bmw"]), limit: r.gen_range(1..=5) }
     })
     .collect();
+  // two fixed shapes per scenario: a small first page of a composite over a numeric histogram
+  // source (many keys of mixed magnitude, match_all) - bucket limits apply to the merged, typed order
+  let mut reqs = reqs;
+  for (f, fk) in [("rank", "i64"), ("price", "f64")] {
+    let src = Src { terms: false, name: "k0".into(), field: f.to_string(), fk, iv4: *pick(r, &[4i64, 8, 20]) };
+    let comp = A::Comp { sources: vec![src], size: r.gen_range(1..=3), after: None, after_parts: vec![], subs: vec![] };
+    reqs.push(Req { q: Q::All, filt: None, aggs: vec![("c0".to_string(), comp)], exec: "bm25", limit: 1 });
+  }
   let mut kinds = vec![0usize, 1, 3];
   for _ in 0..r.gen_range(0..=2) {
     kinds.push(*pick(r, &[2usize, 2, 3]));
@@ -882,7 +890,7 @@ fn mode_layouts(r: &mut StdRng, scn: usize, n_req: usize, out: &mut Vec<Value>) 
       n += 1;
     }
   }
-  out.push(json!({"ev": "reset", "scn": scn, "fam": "aggs-layouts", "nreq": n_req, "layouts": kinds}));
+  out.push(json!({"ev": "reset", "scn": scn, "fam": "aggs-layouts", "nreq": reqs.len(), "layouts": kinds}));
   out.push(json!({"ev": "dict", "entries": dict.to_json()}));
   out.extend(events);
   Ok(n)
